@@ -1,7 +1,7 @@
 #!/usr/bin/env python3
 """tools/seed_all.py [tier]  — re-runs every kept seeded change against its property's check (one lane per
 property, in parallel; each run in a scratch worktree of /repo: SEED_SCRATCH=1, /repo itself is not touched) and
-records the CURRENT outcome in seeded/<id>/meta.json under "recheck" (the original "check" entry is kept)."""
+(PROPS="C17 C19" restricts the properties) records the CURRENT outcome in seeded/<id>/meta.json under "recheck" (the original "check" entry is kept)."""
 import json, os, subprocess, sys, glob, datetime
 from concurrent.futures import ThreadPoolExecutor
 V = "/verif"
@@ -9,7 +9,10 @@ tier = sys.argv[1] if len(sys.argv) > 1 else "quick"
 env = dict(os.environ, SEED_SCRATCH="1", GOFLAGS="-mod=mod", GOPROXY="off", GOSUMDB="off", GOTOOLCHAIN="local")
 byprop = {}
 for m in sorted(glob.glob(f"{V}/seeded/*/meta.json")):
-    d = json.load(open(m)); byprop.setdefault(d["property"], []).append(os.path.dirname(m))
+    d = json.load(open(m))
+    if os.environ.get("PROPS") and d["property"] not in os.environ["PROPS"].split():
+        continue
+    byprop.setdefault(d["property"], []).append(os.path.dirname(m))
 def lane(prop):
     out = []
     for d in byprop[prop]:
